@@ -14,6 +14,7 @@ import (
 	"sync"
 	"time"
 
+	"github.com/nspcc-dev/dbft"
 	"github.com/nspcc-dev/neo-go/pkg/config"
 	"github.com/nspcc-dev/neo-go/pkg/consensus"
 	"github.com/nspcc-dev/neo-go/pkg/core/block"
@@ -232,7 +233,8 @@ type netSim struct {
 	puts   int
 	tmp    string
 	// C07 / C17 bookkeeping
-	defective          map[util.Uint256]string // tx hash -> defect name (must never be pooled / on chain)
+	defective          map[util.Uint256]string   // tx hash -> defect name (must not be pooled by a node for which the defect holds)
+	defectFees         map[util.Uint256][2]int64 // fee-one-short: fee per byte and base execution fee the fee was computed with
 	goodAt             map[util.Uint256]time.Duration
 	seenTx             map[util.Uint256][]byte // canonical bytes of every transaction seen
 	firstBlockAt       time.Duration
@@ -256,6 +258,9 @@ func (s *netSim) enqueue(from, to int, kind string, raw []byte, want []util.Uint
 	s.outbox = append(s.outbox, outMsg{from: from, seq: n.outSeq, sentAt: s.now(), to: to, kind: kind, raw: raw, want: want})
 	s.mu.Unlock()
 }
+
+// netDebug (VERIF_NETDEBUG=1) adds every outbox entry and delivery to the event log; debugging aid only.
+var netDebug = os.Getenv("VERIF_NETDEBUG") != ""
 
 func msgBytes(cmd network.CommandType, p payload.Payload) []byte {
 	m := network.NewMessage(cmd, p)
@@ -318,6 +323,18 @@ func (s *netSim) flushOutbox() {
 	})
 	tape := s.r.tape
 	for _, m := range ob {
+		if netDebug {
+			extra := ""
+			if m.kind == "consensus" {
+				mm := &network.Message{}
+				if mm.Decode(nio.NewBinReaderFromBuf(m.raw)) == nil {
+					if e, ok := mm.Payload.(*payload.Extensible); ok && len(e.Data) >= 7 {
+						extra = fmt.Sprintf(" type=%#x height=%d vi=%d view=%d", e.Data[0], binary.LittleEndian.Uint32(e.Data[1:5]), e.Data[5], e.Data[6])
+					}
+				}
+			}
+			s.r.log.Addf("  t=%dms outbox from %d seq %d %s %016x want=%d%s", s.now()/time.Millisecond, m.from, m.seq, m.kind, sim.HashBytes(0, m.raw), len(m.want), extra)
+		}
 		if m.kind == "gettx" {
 			s.answerTxRequest(m)
 			continue
@@ -405,6 +422,9 @@ func (s *netSim) deliver(to int, kind string, raw []byte) {
 		return
 	}
 	s.r.out.Probes["msg_delivered"]++
+	if netDebug {
+		s.r.log.Addf("  t=%dms deliver to %d %s %016x", s.now()/time.Millisecond, to, kind, sim.HashBytes(0, raw))
+	}
 	switch msg.Command {
 	case network.CMDExtensible:
 		e := msg.Payload.(*payload.Extensible)
@@ -460,6 +480,10 @@ func (s *netSim) submitTx(v *vnode, tx *transaction.Transaction) {
 		s.r.violate(pv)
 		return
 	}
+	// a primary waiting for the first transaction is woken by the pool (poolEvents); let its event loop take that
+	// before the transaction itself is handed to the service: with both channels ready the loop's select would
+	// choose by the runtime's random number, which no plan controls
+	sim.Wait()
 	if namerOnOwnChain {
 		s.r.out.Probes["conflict_victim_submitted_after_namer_on_chain"]++
 		if err == nil {
@@ -471,7 +495,11 @@ func (s *netSim) submitTx(v *vnode, tx *transaction.Transaction) {
 		s.r.violate(sim.Violatef("c07-invalid-tx-pooled", "c07-invalid-tx-pooled/already-on-chain", "node %d pooled a transaction that is already on chain", v.idx))
 		return
 	}
-	if d, bad := s.defective[tx.Hash()]; bad && err == nil {
+	if d, bad := s.defective[tx.Hash()]; bad && err == nil && !s.defectHolds(v, tx, d) {
+		// the defect was built against the client's view of the chain; this node is at another height (or has
+		// other fee settings), where the transaction is simply valid
+		s.r.out.Probes["defective_tx_valid_for_lagging_node"]++
+	} else if bad && err == nil {
 		s.r.violate(sim.Violatef("c07-invalid-tx-pooled", "c07-invalid-tx-pooled/"+d, "node %d pooled a transaction the generator made invalid (%s)", v.idx, d))
 		return
 	}
@@ -483,6 +511,21 @@ func (s *netSim) submitTx(v *vnode, tx *transaction.Transaction) {
 	} else {
 		s.r.out.Probes["tx_not_pooled"]++
 	}
+}
+
+// defectHolds tells whether the one defect the generator gave tx is a defect in the eyes of node v now.
+func (s *netSim) defectHolds(v *vnode, tx *transaction.Transaction, d string) bool {
+	bc := v.n.BC
+	switch d {
+	case defectNames[defExpired]:
+		return tx.ValidUntilBlock <= bc.BlockHeight()
+	case defectNames[defTooFarAhead]:
+		return tx.ValidUntilBlock > bc.BlockHeight()+bc.GetMaxValidUntilBlockIncrement()
+	case defectNames[defFeeShort]:
+		c, ok := s.defectFees[tx.Hash()]
+		return ok && c == [2]int64{bc.FeePerByte(), bc.GetBaseExecFee()}
+	}
+	return true
 }
 
 // offerBlock: a block received from the network.
@@ -594,7 +637,7 @@ func (r *run) runNet() {
 	if np == nil {
 		sim.Harnessf("network plan missing")
 	}
-	s := &netSim{r: r, np: np, canon: map[uint32]util.Uint256{}, croot: map[uint32]string{}, defective: map[util.Uint256]string{},
+	s := &netSim{r: r, np: np, canon: map[uint32]util.Uint256{}, croot: map[uint32]string{}, defective: map[util.Uint256]string{}, defectFees: map[util.Uint256][2]int64{},
 		goodAt: map[util.Uint256]time.Duration{}, seenTx: map[util.Uint256][]byte{}, onChainResubmitted: map[util.Uint256]bool{}, conflictVictims: map[util.Uint256]util.Uint256{}}
 	// entropy
 	old := crand.Reader
@@ -693,6 +736,20 @@ func (r *run) runNet() {
 	sim.Wait()
 
 	r.tape.Tail = np.TailSeed
+	// the order in which a validator replays cached messages of a future height when it reaches that height (a Go map
+	// order upstream) is a decision of the plan
+	dbft.VerifCacheOrder = func(keys []uint16) {
+		for i := len(keys) - 1; i > 0; i-- {
+			j := r.tape.Choose(i + 1)
+			keys[i], keys[j] = keys[j], keys[i]
+		}
+		r.out.Probes["cached_future_messages_replayed"]++
+	}
+	defer func() { dbft.VerifCacheOrder = nil }()
+	if netDebug {
+		debugNodeLogs = func(m string) { r.log.Addf("    t=%dms LOG %s", s.now()/time.Millisecond, m) }
+		defer func() { debugNodeLogs = nil }()
+	}
 	// bootstrap: the validators' multisig funds the accounts (sent to every node)
 	s.at(10*time.Millisecond, func() {
 		for _, tx := range r.bootstrapTxs() {
